@@ -19,7 +19,7 @@ ENext == /\ Next
          /\ hist' = IF pc # "idle" /\ pc' = "idle"
                     THEN Append(hist, [kind |-> "end", obs |-> Obs])
                     ELSE IF pc = "idle" /\ pc' # "idle"
-                    THEN Append(hist, IF op'.kind = "kv" THEN [kind |-> "kv", upd |-> op'.upd]
+                    THEN Append(hist, IF op'.kind = "kv" THEN [kind |-> "kv", upd |-> op'.upd, ord |-> op'.ord]
                                       ELSE [kind |-> "app", k |-> op'.k, failg |-> op'.failg, failc |-> op'.failc])
                     ELSE IF pc = "idle" /\ pc' = "idle"     \* operation refused at its first step
                     THEN Append(Append(hist, [kind |-> "app", k |-> -1, failg |-> 0, failc |-> 0]),
